@@ -41,7 +41,7 @@ func (a *c16CacheAn) reaches(d *ast.FuncDecl, depth int) bool {
 			yes = true
 			break
 		}
-		if fo, ok := f.Callee(call).(*types.Func); ok && depth < 4 {
+		if fo, ok := c16FnOK(f, call); ok && depth < 4 {
 			if cd := a.e.decls[fo]; cd != nil && cd != d && a.reaches(cd, depth+1) {
 				yes = true
 				break
@@ -68,7 +68,7 @@ func (a *c16CacheAn) check(f *flow.Func, name string, depth int) {
 			sites = append(sites, call)
 			continue
 		}
-		if fo, ok := f.Callee(call).(*types.Func); ok {
+		if fo, ok := c16FnOK(f, call); ok {
 			if d := a.e.decls[fo]; d != nil && a.reaches(d, 0) {
 				sites = append(sites, call)
 				next = append(next, d)
@@ -80,11 +80,11 @@ func (a *c16CacheAn) check(f *flow.Func, name string, depth int) {
 		return
 	}
 	a.n++
-	g := a.w.guards(f) // identity / supersession facts of this function
+	g := a.w.guards(f, false) // identity / supersession facts of this function
 	var lookupOK []string
 	ast.Inspect(f.Body, func(n ast.Node) bool {
 		if as, ok := n.(*ast.AssignStmt); ok && len(as.Lhs) == 2 && len(as.Rhs) == 1 {
-			if call, ok := ast.Unparen(as.Rhs[0]).(*ast.CallExpr); ok && calleeIs(f, call, "(*sync.Map).Load") && c16Sel(f, c16Recv(call), a.e.sessMapF) {
+			if call, ok := ast.Unparen(as.Rhs[0]).(*ast.CallExpr); ok && c16Is(f, call, "(*sync.Map).Load") && c16Sel(f, c16Recv(call), a.e.sessMapF) {
 				if id, ok := as.Lhs[1].(*ast.Ident); ok && c16Obj(f, id) != nil {
 					lookupOK = append(lookupOK, f.VarKey(id))
 				}
@@ -93,7 +93,8 @@ func (a *c16CacheAn) check(f *flow.Func, name string, depth int) {
 		return true
 	})
 	const evRemoved = "ev:c16cacheRemoved"
-	res := analyze(c, f, flow.Config{NoHavoc: true, OnCall: func(st *flow.State, call *ast.CallExpr, callee types.Object, d bool) {
+	_, inline := a.w.ownerHelpers(f)
+	res := analyze(c, f, flow.Config{NoHavoc: true, Inline: inline, OnCall: func(st *flow.State, call *ast.CallExpr, callee types.Object, d bool) {
 		for _, s := range sites {
 			if s == call {
 				st.Set(evRemoved, flow.True)
@@ -133,12 +134,12 @@ func (a *c16CacheAn) check(f *flow.Func, name string, depth int) {
 
 func c16Cache(e *c16Env) {
 	c := e.c
-	f := fn(c, mq, "Client", "readLoop")
+	f := e.anchor("readLoop")
 	if f == nil {
 		return
 	}
 	a := &c16CacheAn{e: e, w: &c16Walker{e: e, visited: map[string]bool{}, ops: map[string]*c16Op{}}, reachM: map[*ast.FuncDecl]int{}, visited: map[string]bool{}}
-	name := fname(mq, "Client", "readLoop")
+	name := e.fnameOf(f)
 	roots := 0
 	ast.Inspect(f.Body, func(n ast.Node) bool {
 		d, ok := n.(*ast.DeferStmt)
@@ -148,7 +149,7 @@ func c16Cache(e *c16Env) {
 		if lit, ok := ast.Unparen(d.Call.Fun).(*ast.FuncLit); ok {
 			roots++
 			a.check(f.Lit(lit), name+"$deferred", 0)
-		} else if fo, ok := f.Callee(d.Call).(*types.Func); ok {
+		} else if fo, ok := c16FnOK(f, d.Call); ok {
 			if dd := e.decls[fo]; dd != nil {
 				roots++
 				a.check(flow.NewFunc(e.pkg, dd), declName(e.pkg, dd), 0)
